@@ -442,10 +442,10 @@ class Ctx:
                 self.known_hits.append(f.signature)
                 continue
             reported.append(f)
-        if real:
-            # the broken obligations are explained by the failing inputs; keep only those not explained
-            reported = [f for f in reported if f.kind == "failing-input"] + \
-                       [f for f in reported if f.kind != "failing-input" and not real]
+        if [f for f in reported if f.kind == "failing-input"]:
+            # broken obligations / correspondences are explained by the NEW failing inputs reported next to them
+            # (a failing input that is a listed known finding explains nothing and hides nothing)
+            reported = [f for f in reported if f.kind == "failing-input"]
         nviol = 0
         os.makedirs(REPLAY_DIR, exist_ok=True)
         for f in reported:
